@@ -10,6 +10,9 @@ import Proofs.BrokerB1Reach
   non-empty payload not since cleared; publishes without the flag never change it; a subscription
   is handed exactly the retained messages whose topics its filter matches, flagged as retained;
   the live copy of a retained publish travels with the flag cleared.
+  The replayed copies are capped when they are QUEUED by the grant `MatchFirst` finds in the
+  session's tree after the SUBSCRIBE (`sess.applyQOS(value)`; `replay_capped`,
+  `recv_subscribe_replay_capped`), and once more at delivery (C06.delivered_qos).
   The retained store of the model is `retained : Node` (topic ↦ [index]) plus `rmsgs` (the messages);
   `stored retained p` is the abstraction of the trie (Proofs/TopicBasic.lean).
 -/
@@ -72,10 +75,11 @@ theorem search_retained (r : Node) (hw : r.WF) (f : Bytes) (hf : ValidFilter (wa
   rw [List.mem_eraseDups]
   exact C04.search_correct r hw (walk f) hf i
 
-/-- … and those messages, exactly and only those, are appended to the subscriber's temporary queue -/
+/-- … and those messages, exactly and only those — each capped by the session's grant, `applyQOS` —
+    are appended to the subscriber's temporary queue -/
 theorem queueRetained_exact (cfg : Cfg) (b b' : BSess) (ms : List Message) (g : Nat)
     (h : queueRetained cfg b ms g = some b') :
-    b'.tempQ = b.tempQ ++ ms.map (fun m => (g, m)) ∧ b'.storedQ = b.storedQ ∧ b'.subs = b.subs ∧ b'.sess = b.sess := by
+    b'.tempQ = b.tempQ ++ ms.map (fun m => (g, applyQOS b m)) ∧ b'.storedQ = b.storedQ ∧ b'.subs = b.subs ∧ b'.sess = b.sess := by
   obtain ⟨h1, h2, h3, h4, _⟩ := BrokerB1.queueRetained_ok cfg ms g b b' h
   exact ⟨h1, h2, h3, h4⟩
 
@@ -305,27 +309,28 @@ theorem retainedOK_history (ms : List Message) : RetainedOK (retainedHist ms).1 
 def replayOne (s : BState) (f : Bytes) : List Message :=
   (Tree.search f s.retained).filterMap (fun i => s.rmsgs[i]?)
 
-/-- everything one SUBSCRIBE appends to the temporary queue: one (unordered) group per filter -/
-def replay (s : BState) : Nat → List Subscription → List (Nat × Message)
+/-- everything one SUBSCRIBE appends to the temporary queue: one (unordered) group per filter, each
+    message capped by the grant of session `b` (whose tree holds the subscriptions of the SUBSCRIBE) -/
+def replay (s : BState) (b : BSess) : Nat → List Subscription → List (Nat × Message)
   | _, [] => []
-  | g, sub :: rest => (replayOne s sub.topic).map (fun m => (g, m)) ++ replay s (g + 1) rest
+  | g, sub :: rest => (replayOne s sub.topic).map (fun m => (g, applyQOS b m)) ++ replay s b (g + 1) rest
 
 /-- `Subscribe`, second loop: the session's temporary queue is extended by exactly the replay of
     the packet's filters, in order; nothing else about the session, the retained store or the
     connections changes -/
 theorem subscribe_replays_exactly (s s' : BState) (c : ConnId) (subs : List Subscription) (b : BSess)
     (hb : s.sessOf c = some b) (h : subscribeRetained s c subs = .ok s') :
-    ∃ b', s'.sessOf c = some b' ∧ b'.tempQ = b.tempQ ++ replay s s.nextGroup subs ∧
+    ∃ b', s'.sessOf c = some b' ∧ b'.tempQ = b.tempQ ++ replay s b s.nextGroup subs ∧
       b'.storedQ = b.storedQ ∧ b'.subs = b.subs ∧ b'.sess = b.sess ∧
       s'.conns = s.conns ∧ s'.retained = s.retained ∧ s'.rmsgs = s.rmsgs := by
   -- the two definitions of `replay` coincide
-  have hrep : ∀ (subs : List Subscription) (g : Nat), BrokerB1.replay s g subs = replay s g subs := by
+  have hrep : ∀ (subs : List Subscription) (g : Nat), BrokerB1.replay s b g subs = replay s b g subs := by
     intro subs
     induction subs with
     | nil => intro g; rfl
     | cons sub rest ih =>
       intro g
-      show _ ++ BrokerB1.replay s (g + 1) rest = _ ++ replay s (g + 1) rest
+      show _ ++ BrokerB1.replay s b (g + 1) rest = _ ++ replay s b (g + 1) rest
       rw [ih]; rfl
   obtain ⟨b', r1, r2, r3, r4, r5, _, r7, r8, r9, _⟩ := BrokerB1.subscribeRetained_ok c subs s s' b hb h
   refine ⟨b', r1, ?_, r3, r4, r5, r7, r8, r9⟩
@@ -335,7 +340,7 @@ theorem subscribe_replays_exactly (s s' : BState) (c : ConnId) (subs : List Subs
 theorem subscribe_replays_one (s s' : BState) (c : ConnId) (sub : Subscription) (b : BSess)
     (hb : s.sessOf c = some b) (h : subscribeRetained s c [sub] = .ok s') :
     ∃ b', s'.sessOf c = some b' ∧
-      b'.tempQ = b.tempQ ++ (replayOne s sub.topic).map (fun m => (s.nextGroup, m)) := by
+      b'.tempQ = b.tempQ ++ (replayOne s sub.topic).map (fun m => (s.nextGroup, applyQOS b m)) := by
   obtain ⟨b', h1, h2, _⟩ := subscribe_replays_exactly s s' c [sub] b hb h
   exact ⟨b', h1, by simpa [replay] using h2⟩
 
@@ -357,26 +362,110 @@ theorem replay_flagged (s : BState) (hinv : RetainedOK s.retained s.rmsgs) (f : 
     (hm : m ∈ replayOne s f) : m.retain = true :=
   BrokerB1.replayOne_retain s hinv f m hm
 
+/-! ### the replayed copies are capped when they are queued -/
+
+/-- every entry of a replay is `applyQOS b` of a retained message one of the filters found: topic,
+    payload and retain flag of the retained message, QoS never higher, and equal to
+    min(retained QoS, q) when `MatchFirst` finds the grant `q` for the message's topic in `b` -/
+theorem mem_replay_capped (s : BState) (b : BSess) (subs : List Subscription) :
+    ∀ (g : Nat) (e : Nat × Message), e ∈ replay s b g subs →
+      ∃ sub r, sub ∈ subs ∧ r ∈ replayOne s sub.topic ∧ e.2 = applyQOS b r ∧
+        e.2.topic = r.topic ∧ e.2.payload = r.payload ∧ e.2.retain = r.retain ∧
+        e.2.qos.toNat ≤ r.qos.toNat ∧
+        ∀ q, subQos b r.topic = some q → e.2.qos.toNat = min r.qos.toNat q := by
+  induction subs with
+  | nil => intro g e he; cases he
+  | cons sub rest ih =>
+    intro g e he
+    simp only [replay, List.mem_append, List.mem_map] at he
+    rcases he with ⟨r, hr, rfl⟩ | he
+    · obtain ⟨a1, a2, a3, a4⟩ := C06.applyQOS_le b r
+      exact ⟨sub, r, List.mem_cons_self .., hr, rfl, a2, a3, a4, a1,
+        fun q hq => (C06.applyQOS_min b r q hq).1⟩
+    · obtain ⟨sub', r, h1, h2⟩ := ih (g + 1) e he
+      exact ⟨sub', r, List.mem_cons_of_mem _ h1, h2⟩
+
+/-- CAP AT ENQUEUE for retained replays (`Subscribe`, second loop): what is appended to the
+    temporary queue is, entry by entry, a retained message found by one of the filters, capped by
+    the grant `MatchFirst` finds in the session's tree `b'.subs` — the tree AFTER the SUBSCRIBE (the
+    loop does not touch it: `b'.subs = b.subs`, and `b` already holds the new subscriptions, see
+    `recv_subscribe_replay_capped`) —, topic and payload intact, retain flag kept -/
+theorem replay_capped (s s' : BState) (c : ConnId) (subs : List Subscription) (b : BSess)
+    (hb : s.sessOf c = some b) (h : subscribeRetained s c subs = .ok s') :
+    ∃ b', s'.sessOf c = some b' ∧ b'.subs = b.subs ∧
+      b'.tempQ = b.tempQ ++ replay s b' s.nextGroup subs ∧
+      ∀ e ∈ replay s b' s.nextGroup subs,
+        ∃ sub r, sub ∈ subs ∧ r ∈ replayOne s sub.topic ∧ e.2 = applyQOS b' r ∧
+          e.2.topic = r.topic ∧ e.2.payload = r.payload ∧ e.2.retain = r.retain ∧
+          e.2.qos.toNat ≤ r.qos.toNat ∧
+          ∀ q, subQos b' r.topic = some q → e.2.qos.toNat = min r.qos.toNat q := by
+  obtain ⟨b', h1, h2, _, h4, _⟩ := subscribe_replays_exactly s s' c subs b hb h
+  have hcongr : ∀ (subs : List Subscription) (g : Nat), replay s b g subs = replay s b' g subs := by
+    intro subs
+    induction subs with
+    | nil => intro g; rfl
+    | cons sub rest ih =>
+      intro g
+      have e : ∀ m, applyQOS b m = applyQOS b' m := fun m => BrokerFan.applyQOS_congr h4.symm m
+      simp only [replay, ih, e]
+  refine ⟨b', h1, h4, by rw [h2, hcongr], fun e he => mem_replay_capped s b' subs _ e he⟩
+
+/-- the SUBSCRIBE packet as the processor handles it: in every successor in which the connection is
+    still alive the session's tree is the fold of `Set` over the packet (C06.recv_subscribe_subs) and
+    the temporary queue was extended by the replay capped by THAT tree: a retained message whose topic
+    `MatchFirst` maps to the grant `q` in the tree after the SUBSCRIBE is queued with
+    QoS = min(retained QoS, q) -/
+theorem recv_subscribe_replay_capped (s : BState) (c : ConnId) (x : BConn) (b : BSess)
+    (subs : List Subscription) (id : UInt16) (hc : s.conn? c = some x) (ha : x.alive = true)
+    (hp : x.phase = .connected) (ht : x.subTok ≠ 0) (hb : s.sessOf c = some b) (ss : List BState)
+    (h : recv s c (.subscribe subs id) = .ok ss) (s' : BState) (hm : s' ∈ ss) (x' : BConn)
+    (hc' : s'.conn? c = some x') (ha' : x'.alive = true) :
+    ∃ b', s'.sessOf c = some b' ∧
+      b'.subs = subs.foldl (fun n sub => Tree.set sub.topic sub.qos.toNat n) b.subs ∧
+      b'.storedQ = b.storedQ ∧
+      b'.tempQ = b.tempQ ++ replay s b' s.nextGroup subs ∧
+      ∀ e ∈ replay s b' s.nextGroup subs,
+        ∃ sub r, sub ∈ subs ∧ r ∈ replayOne s sub.topic ∧ e.2 = applyQOS b' r ∧
+          e.2.topic = r.topic ∧ e.2.payload = r.payload ∧ e.2.retain = r.retain ∧
+          e.2.qos.toNat ≤ r.qos.toNat ∧
+          ∀ q, subQos b' r.topic = some q → e.2.qos.toNat = min r.qos.toNat q := by
+  obtain ⟨b', h1, h2, h3, h4, _⟩ := BrokerB1.recv_subscribe s c x b subs id hc ha hp ht hb ss h s' hm x' hc' ha'
+  have hrep : ∀ (subs : List Subscription) (g : Nat), BrokerB1.replay s b' g subs = replay s b' g subs := by
+    intro subs
+    induction subs with
+    | nil => intro g; rfl
+    | cons sub rest ih =>
+      intro g
+      show _ ++ BrokerB1.replay s b' (g + 1) rest = _ ++ replay s b' (g + 1) rest
+      rw [ih]; rfl
+  exact ⟨b', h1, h2, h4, by rw [h3, hrep], fun e he => mem_replay_capped s b' subs _ e he⟩
+
 /-! ### the live copy -/
 
 /-- what `Backend.Publish` queues for the current subscribers has the retain flag cleared (and
-    topic, payload, QoS of the publish): every entry of a session's queues after the publish was
+    topic and payload of the publish; the QoS is the published one capped by the session's grant,
+    `applyQOS`, C06.enqueued_copy_capped): every entry of a session's queues after the publish was
     there before or is that copy -/
 theorem live_copy_flag_cleared (s s' : BState) (c : ConnId) (m : Message)
     (h : backendPublish s c m = .ok s') (c' : ConnId) (b : BSess) (hb : s.sessOf c' = some b) :
     ∃ b', s'.sessOf c' = some b' ∧
       (∀ x ∈ b'.storedQ, x ∈ b.storedQ ∨
-        (x.retain = false ∧ x.topic = m.topic ∧ x.payload = m.payload ∧ x.qos = m.qos)) ∧
+        (x = applyQOS b { m with retain := false } ∧
+         x.retain = false ∧ x.topic = m.topic ∧ x.payload = m.payload ∧ x.qos.toNat ≤ m.qos.toNat)) ∧
       (∀ e ∈ b'.tempQ, e ∈ b.tempQ ∨
-        (e.2.retain = false ∧ e.2.topic = m.topic ∧ e.2.payload = m.payload ∧ e.2.qos = m.qos)) := by
+        (e.2 = applyQOS b { m with retain := false } ∧
+         e.2.retain = false ∧ e.2.topic = m.topic ∧ e.2.payload = m.payload ∧ e.2.qos.toNat ≤ m.qos.toNat)) := by
   obtain ⟨b', h1, _, h2⟩ := C06.publish_session s s' c m h c' b hb
   refine ⟨b', h1, ?_⟩
   have hsame : b' = b → (∀ x ∈ b'.storedQ, x ∈ b.storedQ ∨
-        (x.retain = false ∧ x.topic = m.topic ∧ x.payload = m.payload ∧ x.qos = m.qos)) ∧
+        (x = applyQOS b { m with retain := false } ∧
+         x.retain = false ∧ x.topic = m.topic ∧ x.payload = m.payload ∧ x.qos.toNat ≤ m.qos.toNat)) ∧
       (∀ e ∈ b'.tempQ, e ∈ b.tempQ ∨
-        (e.2.retain = false ∧ e.2.topic = m.topic ∧ e.2.payload = m.payload ∧ e.2.qos = m.qos)) := by
+        (e.2 = applyQOS b { m with retain := false } ∧
+         e.2.retain = false ∧ e.2.topic = m.topic ∧ e.2.payload = m.payload ∧ e.2.qos.toNat ≤ m.qos.toNat)) := by
     intro e; subst e
     exact ⟨fun x hx => Or.inl hx, fun e he => Or.inl he⟩
+  obtain ⟨a1, a2, a3, a4⟩ := C06.applyQOS_le b { m with retain := false }
   split at h2
   · rcases h2 with h2 | ⟨_, _, h2⟩
     · obtain ⟨h3, _⟩ := C06.enqueue_one_copy _ _ _ _ _ h2
@@ -387,14 +476,14 @@ theorem live_copy_flag_cleared (s s' : BState) (c : ConnId) (m : Message)
         rcases List.mem_append.1 he with he | he
         · exact Or.inl he
         · simp only [List.mem_singleton] at he; subst he
-          exact Or.inr ⟨rfl, rfl, rfl, rfl⟩
+          exact Or.inr ⟨rfl, a4, a2, a3, a1⟩
       · rw [h3.1, h3.2]
         refine ⟨?_, fun e he => Or.inl he⟩
         intro x hx
         rcases List.mem_append.1 hx with hx | hx
         · exact Or.inl hx
         · simp only [List.mem_singleton] at hx; subst hx
-          exact Or.inr ⟨rfl, rfl, rfl, rfl⟩
+          exact Or.inr ⟨rfl, a4, a2, a3, a1⟩
     · exact hsame h2
   · exact hsame h2
 
@@ -479,20 +568,49 @@ example : exM1 ∉ replayOne exState [98, 47, 35] := by
   revert h3; decide
 /-- the publish that clears "a/b" is accepted in that state -/
 example : ∃ s', backendPublish exState 0 exM3 = .ok s' := ⟨_, rfl⟩
-/-- SUBSCRIBE "a/+" in that state: accepted, the retained message of "a/b" is queued -/
-example : ∃ s', subscribeRetained exState 0 [⟨[97, 47, 43], 1⟩] = .ok s' ∧
-    s'.sessOf 0 = some { active := some 0, tempQ := [(0, exM1)] } := by
+theorem exSearch : Tree.search [97, 47, 43] exState.retained = [0] := by
   have e : (retainedHist [exM1, exM2]).1 =
       Node.mk [] [([97], Node.mk [] [([98], Node.mk [0] [])]), ([99], Node.mk [1] [])] := rfl
-  have h : Tree.search [97, 47, 43] exState.retained = [0] := by
-    show Tree.search [97, 47, 43] (retainedHist [exM1, exM2]).1 = [0]
-    rw [e]
-    unfold Tree.search
-    rw [show walk [97, 47, 43] = [[97], [43]] by decide]
-    simp [searchAll, searchKids, child?, wildSome, wildOne, clean, values]
-    rfl
+  show Tree.search [97, 47, 43] (retainedHist [exM1, exM2]).1 = [0]
+  rw [e]
+  unfold Tree.search
+  rw [show walk [97, 47, 43] = [[97], [43]] by decide]
+  simp [searchAll, searchKids, child?, wildSome, wildOne, clean, values]
+  rfl
+
+/-- SUBSCRIBE "a/+" in that state: accepted, the retained message of "a/b" is queued (the second loop
+    of `Subscribe` alone, on a session without subscriptions: nothing to cap with) -/
+example : ∃ s', subscribeRetained exState 0 [⟨[97, 47, 43], 1⟩] = .ok s' ∧
+    s'.sessOf 0 = some { active := some 0, tempQ := [(0, exM1)] } := by
+  simp only [subscribeRetained, exSearch]
+  exact ⟨_, rfl, rfl⟩
+
+/-- the session of connection 0 holding "a/+" @ 0 -/
+def exSess0 : BSess := { subs := Tree.set [97, 47, 43] 0 Node.empty, active := some 0 }
+
+/-- cap at enqueue, concretely: with "a/+" granted at QoS 0 in the tree, the retained QoS-1 message of
+    "a/b" is queued as a QoS-0 copy, retain flag kept -/
+example : subQos exSess0 exM1.topic = some 0 := by decide
+example : applyQOS exSess0 exM1 = { exM1 with qos := 0 } := by decide
+example : ∃ s', subscribeRetained { exState with temp := [(0, exSess0)] } 0 [⟨[97, 47, 43], 0⟩] = .ok s' ∧
+    s'.sessOf 0 = some { exSess0 with tempQ := [(0, ⟨[97, 47, 98], [1], 0, true⟩)] } := by
+  have h : Tree.search [97, 47, 43] ({ exState with temp := [(0, exSess0)] } : BState).retained = [0] := exSearch
   simp only [subscribeRetained, h]
   exact ⟨_, rfl, rfl⟩
+/-- … and the hypotheses of `recv_subscribe_replay_capped` hold in `exState`: connection 0 is connected,
+    alive, has a subscribe token and a session -/
+example : ∃ x b, exState.conn? 0 = some x ∧ x.alive = true ∧ x.phase = .connected ∧ x.subTok ≠ 0 ∧
+    exState.sessOf 0 = some b := ⟨_, _, rfl, rfl, rfl, by decide, rfl⟩
+/-- the whole SUBSCRIBE "a/+" @ 0 as processed by `recv`: one successor, connection alive, the
+    subscription stored and the retained QoS-1 message queued as a QoS-0 copy -/
+example : ∃ s', recv exState 0 (.subscribe [⟨[97, 47, 43], 0⟩] 5) = .ok [s'] ∧
+    (∃ x', s'.conn? 0 = some x' ∧ x'.alive = true) ∧
+    s'.sessOf 0 = some { exSess0 with tempQ := [(0, ⟨[97, 47, 98], [1], 0, true⟩)] } := by
+  have h : Tree.search [97, 47, 43] (retainedHist [exM1, exM2]).fst = [0] := exSearch
+  simp [recv, exState, conn?, Assoc.get, Assoc.set, setConn, sessOf, setSessOf, ackVia, updConn,
+    subscribeRetained, Res.one, exSess0]
+  rw [h]
+  exact ⟨_, rfl, ⟨_, ⟨_, rfl⟩, rfl⟩, rfl⟩
 
 /-- a reachable state holding a retained message: connect, CONNECT (clean, no client id), retained publish -/
 example : ∃ s, Reachable {} s ∧ s.rmsgs = [exM1] ∧ stored s.retained (walk exM1.topic) = [0] := by
